@@ -197,6 +197,7 @@ func TestRanges(t *testing.T) {
 		}
 		evid.Count("range.passed_gate")
 		evid.NonTrivial(fmt.Sprintf("range|%s|%s", edit, rangeDesc(dec.Blocks)))
+		evid.Sample("range", fmt.Sprintf("range|%s|%s", edit, rangeDesc(dec.Blocks)))
 
 		// consumer 1: the fork resolver (SeekForkedBlocks: header from the wire, body from IPFS, certificate from the wire)
 		{
